@@ -429,9 +429,15 @@ def make_wiring_harness(alg_name, nblocks, ninf, with_scope):
 
     def harness(eng):
         terms, products, outputs = parsed_algorithm(alg_name)
-        alg = extract.read_algorithm(alg_name)
+        alg = read_spec(alg_name)
         H = SSeries("H", nblocks, nblocks, ninf)
         H.dimension_names = "dims"
+        # further input series of corpus / generated programs (names read but not defined, and the inputs named by `start = "<input>_0"`)
+        more_inputs = {}
+        for nm_ in sorted(program_inputs(alg) | {sd_.start[:-2] for sd_ in alg.series if isinstance(sd_.start, str) and sd_.start.endswith("_0")}):
+            if nm_ != "H":
+                more_inputs[nm_] = SSeries(nm_, nblocks, nblocks, ninf)
+                more_inputs[nm_].dimension_names = "dims"
         created = []
         cauchy_calls = []
 
@@ -490,7 +496,7 @@ def make_wiring_harness(alg_name, nblocks, ninf, with_scope):
         # anything that confuses the inputs (e.g. closures sharing a loop variable) shows up at "H"
         G2 = SSeries("G_extra_input", nblocks, nblocks, ninf)
         G2.dimension_names = "dims"
-        res = eng.call(clo, [{"H": H, "G_extra_input": G2}, SNative(object())], {"scope": scope, "operator": op})
+        res = eng.call(clo, [{"H": H, **more_inputs, "G_extra_input": G2}, SNative(object())], {"scope": scope, "operator": op})
         out = eng.as_seq(res).items
         series, lo = out[0], out[1]
         sdefs = alg.series_by_name()
@@ -557,8 +563,8 @@ def make_wiring_harness(alg_name, nblocks, ninf, with_scope):
             r = eng.call(clG.kw["eval"], [0, nblocks - 1] + [3] * ninf, {})
             okG = isinstance(r, SObj) and r.origin is not None and r.origin[0] is G2 and lo_wrap_calls and lo_wrap_calls[-1] is r
         eng.oblige("wiring:lo-twin-of-every-input-series-wraps-that-series", z3.BoolVal(bool(okG)))
-        eng.oblige("wiring:input-series-kept-under-their-keys", z3.BoolVal(series.get("H") is H and series.get("G_extra_input") is G2))
-        eng.oblige("wiring:no-extra-series", z3.BoolVal(set(series) == {"H", "G_extra_input"} | set(sdefs) | {p.name for p in alg.products}),
+        eng.oblige("wiring:input-series-kept-under-their-keys", z3.BoolVal(series.get("H") is H and series.get("G_extra_input") is G2 and all(series.get(k_) is v_ for k_, v_ in more_inputs.items())))
+        eng.oblige("wiring:no-extra-series", z3.BoolVal(set(series) == {"H", "G_extra_input"} | set(more_inputs) | set(sdefs) | {p.name for p in alg.products}),
                    detail=f"{sorted(series)}")
         for p in alg.products:
             for which, nm in ((series, "series"), (lo, "linear_operator_series")):
